@@ -38,6 +38,11 @@ def _kernel(c, model):
     cache = ProbeCache()
     rk = uuid.UUID(int=7)
     r = c.call(_client._get_protection_gke_from_cache, rk, b"sd", cache)
+    if cache.asked is None:
+        # the function answered without asking the cache for a position: nothing to observe here (the propagation harnesses observe the emitted blob);
+        # the labels below then stay unreached and the check reports itself inconclusive rather than guessing
+        c.check(r is None, "no envelope without a cache lookup")
+        return True
     l0, l1, l2 = cache.asked
     ft = t // 100 + EPOCH
     c.check(l0 == ft // (1024 * B), "L0 is the interval containing now")
